@@ -382,7 +382,7 @@ func TestCheck(t *testing.T) {
 	hx.Main(t, "C18", func(c *hx.Ctx) {
 		c.Register("concurrent", check)
 	}, func(c *hx.Ctx) {
-		c.Rapid("concurrent_workloads", c.N(25, 200), func(t *rapid.T) {
+		c.Rapid("concurrent_workloads", c.N(25, 500), func(t *rapid.T) {
 			cs := Case{Procs: rapid.SampledFrom([]int{2, 4, 8, 16}).Draw(t, "procs")}
 			k := rapid.IntRange(2, 16).Draw(t, "workers")
 			if rapid.IntRange(0, 5).Draw(t, "many") == 0 {
